@@ -3,6 +3,7 @@ import Driver.TableSuite
 import Driver.B62Suite
 import Driver.CoreSuite
 import Driver.RotSuite
+import Driver.CodecSuite
 /-
   vpmodel: reads lines `op<TAB>implementation observation`, prints `model observation<TAB>spec verdict`.
 -/
@@ -20,6 +21,9 @@ def stepLine (st : DState) (line : String) : DState × String :=
   let toks := (op.splitOn " ").filter (· ≠ "")
   if toks = ["reset"] then (({} : DState), "ok\t-") else
   match pureStep toks implObs with
+  | some (m, s) => (st, m ++ "\t" ++ s)
+  | none =>
+  match codecStep toks implObs with
   | some (m, s) => (st, m ++ "\t" ++ s)
   | none =>
   match b62Step toks implObs with
